@@ -1314,6 +1314,7 @@ def names_json(tables, rd):
     for a in rd["arms"]:
         d[a["variant"]].setdefault("read_archs", []).extend(a["archs"])
         d[a["variant"]]["read_size"] = a["size"]
+        d[a["variant"]]["flags_off"] = a["flags_off"]
     d["$read"] = {"archs": rd["archs"], "mask": rd["mask"], "allbits": rd["allbits"]}
     return json.dumps(d, indent=1, sort_keys=True) + "\n"
 
